@@ -179,9 +179,8 @@ impl DefaultInputTextPlugin {
         let checker = self.checker.as_ref().unwrap();
         let mut min_offset = 0;
 
-        let mut ac_input = aho_corasick::Input::new(cur)
-            .anchored(Anchored::Yes)
-            .earliest(true);
+        // leftmost-longest anchored search: the longest key starting at the offset, same as the fast path
+        let mut ac_input = aho_corasick::Input::new(cur).anchored(Anchored::Yes);
 
         for (offset, ch) in cur.char_indices() {
             if offset < min_offset {
